@@ -40,6 +40,14 @@ ALPHA = b'ABCXYZabcxyz0189-_.$'
 
 
 def cases(rng, tier):
+	# first of all, before anything else has been parsed in this process: one object parsed twice with different versions, then
+	# fresh objects for the same texts (a value remembered per process from the first parse must not show later)
+	for kind, a, b in (('reqline', b'GET / HTTP/1.1', b'POST /a HTTP/1.0'), ('respline', b'HTTP/1.0 200 OK', b'HTTP/1.1 404 Not Found'),
+			('reqline', b'GET / HTTP/0.9', b'GET / HTTP/3.7'), ('respline', b'HTTP/2.5 200 OK', b'HTTP/0.3 200 OK'), ('proto', b'HTTP/1.3', b'HTTP/2.1')):
+		yield ('seq', kind, (a, b))
+		yield ('seq', kind, (b, a, b))
+		yield (kind, a)
+		yield (kind, b)
 	for code in range(0, 1000):
 		for ph in PHRASES:
 			yield ('status', code, ph)
